@@ -39,6 +39,7 @@ type Env struct {
 	putSt  *putStore
 	aclSvc aclsvc.Service
 	remote *remoteNode
+	sess   *isessions.ObjectSessionsCache
 }
 
 // NewEnv builds the universe, stores its objects into a fresh engine under dir
@@ -102,7 +103,8 @@ func NewEnv(dir string) (*Env, error) {
 	)
 	hs := &handlers{log: log, get: get, put: put}
 
-	aclSvc := aclsvc.New(ch, isessions.NewObjectSessionsCache(1000),
+	sessCache := isessions.NewObjectSessionsCache(1000)
+	aclSvc := aclsvc.New(ch, sessCache,
 		aclsvc.WithLogger(zap.NewNop()),
 		aclsvc.WithIRFetcher(ch),
 		aclsvc.WithNetmapper(ch),
@@ -119,7 +121,7 @@ func NewEnv(dir string) (*Env, error) {
 	st := storage{log: log, u: u}
 	ext := extractor{log: log, svc: aclSvc}
 
-	e := &Env{U: u, Log: log, chain: ch, data: data, empty: empty, putSt: putSt, aclSvc: aclSvc, remote: remote}
+	e := &Env{U: u, Log: log, chain: ch, data: data, empty: empty, putSt: putSt, aclSvc: aclSvc, remote: remote, sess: sessCache}
 	e.Server = objectsvc.New(hs, ch, st, nil, nodeKey, srvMetrics{}, mkChecker(data), ext, cl, zap.NewNop())
 	e.ServerLate = objectsvc.New(hs, ch, st, nil, nodeKey, srvMetrics{}, mkChecker(empty), ext, cl, zap.NewNop())
 	log.Reset()
@@ -129,8 +131,16 @@ func NewEnv(dir string) (*Env, error) {
 // SetMaintenance switches the maintenance flag reported by FSChain.LocalNodeUnderMaintenance.
 func (e *Env) SetMaintenance(on bool) { e.chain.maintenance.Store(on) }
 
-// ResetCaches drops token check caches (a cached verdict is keyed by token bytes).
-func (e *Env) ResetCaches() { e.aclSvc.ResetTokenCheckCache() }
+// TickEpoch does what cmd/neofs-node does to the object service on a new epoch
+// event: the bearer / NNS check caches of the ACL service and the session token
+// cache are dropped. The epoch number itself stays (token lifetimes are relative to it).
+func (e *Env) TickEpoch() {
+	e.aclSvc.ResetTokenCheckCache()
+	e.sess.ResetCache()
+}
+
+// ResetCaches is TickEpoch (kept for callers of the first version).
+func (e *Env) ResetCaches() { e.TickEpoch() }
 
 // Close releases the engines.
 func (e *Env) Close() {
